@@ -41,9 +41,9 @@ def begins_with_char(e, rules, depth=0):
     if k == "lit": return len(e[1]) > 0
     if k == "range": return True
     if k == "ref":
-        if e[1] in SINGLE: return True
-        if e[1] in rules and depth < 4: return begins_with_char(rules[e[1]][1], rules, depth + 1)
-        return False
+        # a grammar rule shadows the non-keyword built-in of the same name: its body decides
+        if e[1] in rules: return depth < 4 and begins_with_char(rules[e[1]][1], rules, depth + 1)
+        return e[1] in SINGLE
     if k == "op":
         if e[1] in ("", "+", "{2}", "{2,}", "{1,2}"): return begins_with_char(e[2], rules, depth)
         return False
@@ -175,6 +175,12 @@ def family(seed, count):
         out.append({"a": ("", ("seq", [("ref", nm), L("y")])), nm: ("", ("alt", [("seq", [("ref", "a"), L("+")]), L("x")]))})
         out.append({"a": ("", ("seq", [("op", "?", L("-")), ("ref", nm)])), nm: ("", ("seq", [("ref", "a"), L("x")]))})
         out.append({"a": ("", ("seq", [("ref", nm), L("y")])), nm: ("", L("x"))})
+        # ... and a rule of that name that can succeed without progress (a predicate): repeated, left-recursed through, as WHITESPACE
+        for pred in (("op", "!", L("x")), ("op", "&", L("1"))):
+            out.append({"a": ("", ("seq", [L("x"), ("op", "*", ("ref", nm))])), nm: ("", pred)})
+            out.append({"a": ("", ("alt", [("seq", [("ref", nm), ("ref", "a")]), L("y")])), nm: ("_", pred)})
+            out.append({"a": ("", ("seq", [L("x"), L("y")])), "WHITESPACE": ("_", ("ref", nm)), nm: ("", pred)})
+            out.append({"a": ("", ("op", "+", ("seq", [("op", "?", L("y")), ("ref", nm)]))), nm: ("", pred)})
     rng.shuffle(out)
     # de-duplicate by text
     seen = set(); res = []
